@@ -3,6 +3,7 @@ import CifModel.Lemmas.ParserTraceInv
 import CifModel.Model.ParserStoreOps
 import CifModel.Props.C03
 import CifModel.Props.C04
+import CifModel.Lemmas.ParserStoreRun
 /-
   Props/C03Store — the parser model and the store: which API calls a parse makes, and that the CIF the parser model returns is what
   those calls build (property C03 "the CIF is consistent afterwards" / C04 "interleaved with parsing").
@@ -176,6 +177,67 @@ theorem C03_parser_store_refines_partial (o : Opts) (pol : Policy) (pre : Cif) (
         Store.abs (Store.createBlock s (some (mkName o false code))).1.db = (SOp.mkBlock code false).apply o cif) :=
   ⟨⟨parseT_out o pol pre units, parse_replay o pol pre units⟩, fun name v c hok hr => setValueC_spec o name v c hok hr,
    fun s cif code h1 h2 h3 h4 h5 h6 => C03_store_step_mkBlock o s cif code h1 h2 h3 h4 h5 h6⟩
+
+/-! ### the composition over whole histories (group gX)
+
+  `ParserSim.coveredFrom none trace`: the trace contains no save-frame creation, and every cif_loop_add_packet directly follows the
+  cif_container_create_loop / cif_loop_add_packet of the same container (what parse_loop does; evaluated by the model driver on every
+  request of family `parse`: `sto=BADshape` otherwise).  For such traces — every option record, every policy, every input, completed
+  or aborted parses, lenient creations included — the FULL statement holds, and more: the history is in contract, so every theorem of
+  C04 / C05 / C06 / C07 about in-contract histories applies to what the parser built. -/
+
+/-- **C03_parser_store_refines_covered_partial** — `C03_parser_store_refines_full` for the covered traces: the recorded calls of the
+    parse, translated into a `Store.Op` history and run through `Store.step` from the empty world, all return CIF_OK, and the store
+    then shows (`Store.abs`) EXACTLY the CIF the parser model returns.  (Lemmas/ParserStoreSim: each call on the documented model with
+    identities vs. the tree; Lemmas/ParserStoreRun: handle tables, `C04_refines` per step.) -/
+theorem C03_parser_store_refines_covered_partial (o : Opts) (pol : Policy) (units : Str) (ops : List Store.Op)
+    (hcov : ParserSim.coveredFrom none (storeTrace o pol [] units) = true)
+    (hso : storeOps o (storeTrace o pol [] units) = some ops) :
+    (storeRun ops).2 = true ∧ ∃ s, (storeRun ops).1 = some s ∧ Store.abs s.db = (parse o pol [] units).cif := by
+  obtain ⟨_, hall, _, s, hc, _, habs⟩ := ParserSim.parse_store_sim o pol units ops hcov hso
+  refine ⟨hall, s, ?_, habs⟩
+  show (Store.run {} ops).1.cifs.getD 0 none = some s
+  rw [hc]; rfl
+
+/-- **C03_parse_is_store_history_partial** — the calls of a (covered) parse are an IN-CONTRACT history of the store API from the empty
+    world; hence the documented model with identities (`specRun`, Spec/StoreSpec) predicts every result and the final state
+    (`C04_refines_from_start` applies). -/
+theorem C03_parse_is_store_history_partial (o : Opts) (pol : Policy) (units : Str) (ops : List Store.Op)
+    (hcov : ParserSim.coveredFrom none (storeTrace o pol [] units) = true)
+    (hso : storeOps o (storeTrace o pol [] units) = some ops) :
+    Store.inContractHist {} ops = true ∧
+      Store.specRun {} ops = some (Store.absW (Store.run {} ops).1, (Store.run {} ops).2) := by
+  obtain ⟨hin, _⟩ := ParserSim.parse_store_sim o pol units ops hcov hso
+  exact ⟨hin, C04_refines_from_start ops hin⟩
+
+/-- **C03_store_inv_after_parse_partial** — after every (covered) parse, also an aborted one, the world of the store model satisfies
+    `WOk` (store invariant `Good` / `Inv` of the CIF, autocommit, iterator table tied) — and the CIF it shows is consistent and
+    rectangular (`OkCif`, `RectCif`: `C03_consistent_after_fresh` about the store's own abstraction). -/
+theorem C03_store_inv_after_parse_partial (o : Opts) (pol : Policy) (units : Str) (ops : List Store.Op)
+    (hcov : ParserSim.coveredFrom none (storeTrace o pol [] units) = true)
+    (hso : storeOps o (storeTrace o pol [] units) = some ops) :
+    Store.WOk (Store.run {} ops).1 ∧ ∃ s, (Store.run {} ops).1.cifs = [some s] ∧ Store.Inv s.db ∧ s.autocommit = true ∧
+      OkCif o (Store.abs s.db) ∧ RectCif (Store.abs s.db) := by
+  obtain ⟨_, _, hwok, s, hc, hits, habs⟩ := ParserSim.parse_store_sim o pol units ops hcov hso
+  have hl : (Store.run {} ops).1.liveC 0 = some s := by unfold Store.World.liveC; rw [hc]; rfl
+  refine ⟨hwok, s, hc, (hwok.good.live hl).db.inv, hwok.autocommit hl (ParserSim.busy_false _ hits 0), ?_⟩
+  rw [habs]
+  exact C03_consistent_after_fresh o pol units
+
+set_option maxRecDepth 1000000 in
+/-- the hypotheses of the three theorems above hold of a real document — a scalar, a loop with two packets, the prune at the end of
+    the block (kernel-evaluated); and of one with an INVALID block code created leniently after the report was accepted -/
+example :
+    ParserSim.coveredFrom none (storeTrace C03.opts2 acceptAll [] (a!"data_a _x 1 loop_ _b 1 2")) = true ∧
+    (storeOps C03.opts2 (storeTrace C03.opts2 acceptAll [] (a!"data_a _x 1 loop_ _b 1 2"))).isSome = true := by decide +kernel
+
+example : ∃ ops, storeOps C03.opts2 (storeTrace C03.opts2 acceptAll [] (a!"data_a _x 1 loop_ _b 1 2")) = some ops ∧
+    (storeRun ops).2 = true ∧ ∃ s, (storeRun ops).1 = some s ∧
+      Store.abs s.db = (parse C03.opts2 acceptAll [] (a!"data_a _x 1 loop_ _b 1 2")).cif := by
+  have h : ParserSim.coveredFrom none (storeTrace C03.opts2 acceptAll [] (a!"data_a _x 1 loop_ _b 1 2")) = true ∧
+      (storeOps C03.opts2 (storeTrace C03.opts2 acceptAll [] (a!"data_a _x 1 loop_ _b 1 2"))).isSome = true := by decide +kernel
+  obtain ⟨ops, hops⟩ := Option.isSome_iff_exists.mp h.2
+  exact ⟨ops, hops, C03_parser_store_refines_covered_partial _ _ _ ops h.1 hops⟩
 
 /-! ### instances of the FULL statement (and non-vacuity of the hypotheses above)
 
